@@ -24,7 +24,6 @@ import (
 	"context"
 	"errors"
 	"fmt"
-	"log/slog"
 	"net"
 	"net/netip"
 	"os"
@@ -52,39 +51,6 @@ func (c c07pCase) String() string {
 	return fmt.Sprintf("script %s, goroutine held at record #%d, meanwhile: %s", c.Script, c.Park, c.X)
 }
 
-type c07pHandler struct {
-	p     *c07hPark
-	armed *bool
-	mu    *sync.Mutex
-	locks func() bool // true: a lock the perturbation may need is taken right now
-	skip  *int
-}
-
-func (h c07pHandler) Enabled(context.Context, slog.Level) bool { return true }
-func (h c07pHandler) WithAttrs([]slog.Attr) slog.Handler       { return h }
-func (h c07pHandler) WithGroup(string) slog.Handler            { return h }
-func (h c07pHandler) Handle(_ context.Context, r slog.Record) error {
-	h.mu.Lock()
-	armed := *h.armed
-	h.mu.Unlock()
-	if !armed {
-		return nil
-	}
-	h.p.mu.Lock()
-	next := h.p.n == h.p.want && !h.p.frozen
-	h.p.mu.Unlock()
-	if next && h.locks() {
-		h.mu.Lock()
-		*h.skip++
-		h.mu.Unlock()
-		h.p.mu.Lock()
-		h.p.want = -2 // this occurrence cannot be held; the case degenerates to "nobody held"
-		h.p.mu.Unlock()
-	}
-	h.p.site("log:" + r.Message)
-	return nil
-}
-
 type c07pResult struct {
 	records  int
 	reached  bool
@@ -107,12 +73,13 @@ func c07pOpen(bad bool) []byte {
 
 func c07pRun(t *testing.T, c c07pCase) (res c07pResult) {
 	synctest.Test(t, func(t *testing.T) {
-		park := &c07hPark{want: c.Park, reached: make(chan struct{}), release: make(chan struct{})}
+		park := &simPark{want: c.Park, reached: make(chan struct{}), release: make(chan struct{})}
 		armed, skip := false, 0
 		var hmu sync.Mutex
 		var thePeer *peer
 		w := &simWorld{t: t}
-		w.logHandler = c07pHandler{p: park, armed: &armed, mu: &hmu, skip: &skip, locks: func() bool {
+		gate := simParkHandler{p: park, armed: &armed, mu: &hmu, skip: &skip}
+		gate.locks = func() bool {
 			if thePeer == nil {
 				return true
 			}
@@ -127,7 +94,8 @@ func c07pRun(t *testing.T, c c07pCase) (res c07pResult) {
 				w.s.shared.mu.Unlock()
 			}
 			return false
-		}}
+		}
+		w.logHandler = gate
 		var rmu sync.Mutex
 		dialAns := make(chan net.Conn, 1)
 		dialPending := false
@@ -175,16 +143,17 @@ func c07pRun(t *testing.T, c c07pCase) (res c07pResult) {
 		addr := bot.addr().String()
 		w.advance(time.Second) // Idle -> Active
 
-		var remotes []*c07hRemote
-		var out, in *c07hRemote
-		newRemote := func(sport, bport int) (*c07hRemote, net.Conn) {
+		var remotes []*simParkRemote
+		var out, in *simParkRemote
+		newRemote := func(sport, bport int) (*simParkRemote, net.Conn) {
 			sc, bc := simPipe(w.serverIP, spec.IP, sport, bport)
-			r := &c07hRemote{conn: bc}
+			r := &simParkRemote{conn: bc}
 			remotes = append(remotes, r)
 			go r.reader()
-			return r, sc
+			// the daemon's Write / Close calls on the connection are park sites too
+			return r, &simParkConn{simConn: sc, h: gate}
 		}
-		write := func(r *c07hRemote, b []byte) {
+		write := func(r *simParkRemote, b []byte) {
 			if r == nil || r.closed() {
 				return
 			}
@@ -203,7 +172,7 @@ func c07pRun(t *testing.T, c c07pCase) (res c07pResult) {
 			var sc net.Conn
 			in, sc = newRemote(179, 40000)
 			go func() {
-				_ = w.s.mgmtOperation(func() error { w.s.passConnToPeer(sc.(*simConn)); return nil }, false)
+				_ = w.s.mgmtOperation(func() error { w.s.passConnToPeer(sc); return nil }, false)
 			}()
 		}
 		var steps []func()
@@ -287,7 +256,7 @@ func c07pRun(t *testing.T, c c07pCase) (res c07pResult) {
 			}
 		case "p-two":
 			// passive peer: a second inbound connection with an OPEN while the first is in OpenConfirm
-			var first *c07hRemote
+			var first *simParkRemote
 			steps = []func(){
 				inConn,
 				func() { write(in, c07pOpen(false)) },
@@ -332,7 +301,7 @@ func c07pRun(t *testing.T, c c07pCase) (res c07pResult) {
 				_ = w.s.DisablePeer(context.Background(), &api.DisablePeerRequest{Address: addr})
 			}()
 		}
-		openAtDisable := map[*c07hRemote]bool{}
+		openAtDisable := map[*simParkRemote]bool{}
 		noteOpen := func() {
 			for _, r := range remotes {
 				if !r.closed() {
@@ -428,7 +397,7 @@ func c07pRun(t *testing.T, c c07pCase) (res c07pResult) {
 			types, notif := r.messages()
 			shape = append(shape, fmt.Sprintf("%v:%v", types, r.closed()))
 			r.mu.Lock()
-			self := r.selfClose
+			self := r.selfClose || r.sentNotif
 			r.mu.Unlock()
 			if !r.closed() {
 				bad("connection-survives-disable", "connection %d is still open 10 s after the disable (the daemon wrote message types %v)", i, types)
@@ -479,7 +448,7 @@ func c07pRun(t *testing.T, c c07pCase) (res c07pResult) {
 		if !pending() && !passive {
 			bad("no-dial-after-enable", "no outbound connection attempt within 120 s of the enable")
 		} else {
-			var fresh *c07hRemote
+			var fresh *simParkRemote
 			if passive {
 				prevIn := in
 				inConn()
@@ -541,8 +510,8 @@ func c07pJudge(r *vr.Report, t *testing.T, c c07pCase) c07pResult {
 func TestVerif_C07_Park(t *testing.T) {
 	r := vr.Start(t, "C07", "park")
 	defer r.Finish()
-	r.Rule = "whole daemon, one active peer; scripts {session over the dialled connection; inbound connection + OPEN first, then the dial; dialled connection + OPEN, then an inbound one; bad OPEN on the dialled connection, retry; established session with an UPDATE, NOTIFICATION from the remote, second session; passive peer: session, remote closes and comes back; passive peer: second inbound connection during OpenConfirm} x every record the daemon logs from the first connect delay on (and the dial's return): the goroutine emitting it held there x meanwhile {nothing, DisablePeer, DeletePeer (then the peer is added again instead of enabled), StopBgp (every connection closed, every goroutine gone), inbound connection + OPEN, remote closes its connections, the rest of the script}; then release, DisablePeer, 10 s, invariants (Idle, reported Idle/down, every connection closed, NOTIFICATION where our OPEN went out, hand-over channels empty), EnablePeer, dial within 120 s, clean session reaches Established; non-trivial = distinct (script, park site, perturbation)"
-	r.Assumptions = append(r.Assumptions, "park sites are the daemon's log records and the dial seam's return; sites reached with the peer's FSM lock or the server's table lock taken are skipped (counted in extra.skipped_under_lock)")
+	r.Rule = "whole daemon, one active peer; scripts {session over the dialled connection; inbound connection + OPEN first, then the dial; dialled connection + OPEN, then an inbound one; bad OPEN on the dialled connection, retry; established session with an UPDATE, NOTIFICATION from the remote, second session; passive peer: session, remote closes and comes back; passive peer: second inbound connection during OpenConfirm} x every record the daemon logs and every Write / Close it issues on a connection from the first connect delay on (and the dial's return): the goroutine emitting it held there x meanwhile {nothing, DisablePeer, DeletePeer (then the peer is added again instead of enabled), StopBgp (every connection closed, every goroutine gone), inbound connection + OPEN, remote closes its connections, the rest of the script}; then release, DisablePeer, 10 s, invariants (Idle, reported Idle/down, every connection closed, NOTIFICATION where our OPEN went out, hand-over channels empty), EnablePeer, dial within 120 s, clean session reaches Established; non-trivial = distinct (script, park site, perturbation)"
+	r.Assumptions = append(r.Assumptions, "park sites are the daemon's log records, its Write / Close calls on the (harness-owned) connections and the dial seam's return; sites reached with the peer's FSM lock or the server's table lock taken are skipped (counted in extra.skipped_under_lock)")
 	if r.ReplayPath() != "" {
 		var c c07pCase
 		if err := r.LoadReplay(&c); err != nil {
